@@ -611,7 +611,7 @@ func cases() []caseSpec {
 		"raw-noread": {"server-close", "stream-close", "peer-disconnect", "both"},
 		"raw-half":   {"server-close", "peer-disconnect"},
 	}
-	reps := run.Pick(3, 12)
+	reps := run.Pick(3, 48)
 	for _, sc := range []string{"play", "record", "raw-noread", "raw-half"} {
 		for ti, t := range trs[sc] {
 			for cut := -1; cut <= steps[sc]; cut++ {
@@ -626,7 +626,7 @@ func cases() []caseSpec {
 		}
 	}
 	// multicast listener allocation that fails at the second / third media
-	for k := 0; k < run.Pick(2, 10); k++ {
+	for k := 0; k < run.Pick(2, 40); k++ {
 		for cut := 1; cut <= 2; cut++ {
 			for _, a := range []string{"close", "retry"} {
 				out = append(out, caseSpec{Scenario: "mcast-fault", Transport: "mcast", Clients: 1, Cut: cut, Action: a, Seed: r.Int63()})
@@ -634,7 +634,7 @@ func cases() []caseSpec {
 		}
 	}
 	// tunnelled players with one connection reset by the network
-	for k := 0; k < run.Pick(1, 6); k++ {
+	for k := 0; k < run.Pick(1, 24); k++ {
 		for _, tr := range []string{"http", "ws"} {
 			for _, tlsOn := range []bool{false, true} {
 				for _, a := range []string{"reset-to-server", "reset-to-client"} {
